@@ -32,14 +32,20 @@ CHECKS = {
         technique="Coq proof (bridge: generated engine = reference walk; walk <-> relational semantics) on a model translated from source each run; random-type-system differential test as tie",
     ),
     "C01": dict(
-        text=("Coq theorem, parametric in the type system, graph, successor order, data and state: if every identity edge is guarded by the child's "
+        text=("Coq theorems in three layers. (1) Parametric in the type system, graph, successor order, data and state: if every identity edge is guarded by the child's "
               "contains_op (a function of the sequence alone) with the identity transformer, then what the GENERATED detect returns is the input itself with "
               "a path from the root along graph edges through types that all contain the sequence, ending in a type none of whose successors contains it. "
-              "The hypothesis is what VisionsBaseTypeMeta.relations builds for identity relations; it and the conclusion are additionally exercised on the "
-              "implementation for shipped typesets and random parent-closed sub-typesets on pandas / list / numpy inputs, also after interleaved inference calls."),
-        ref="DESIGN.md section 6 (C01)",
-        note=TB_COMMON + "Assumes contains_op of shipped types ignores the state and identity relations carry no explicit guard/transformer (exercised dynamically; proved for the generated backends in later layers). Objects with adversarial __eq__/__class__ are outside the model.",
-        technique="Coq proof over the reference walk (induction on walks) lifted to the generated detect by the bridge; Python-side soundness oracle on shipped typesets for counter-example search",
+              "(2) No hypothesis on the graph (theory/DetectWF.v, on top of C14's constructor theorem): for any relation table with the table facts whose identity relations use the "
+              "default guard and transformer, and any closed list of types, the generated constructor builds the typeset and detect's path runs from Generic along declared identity "
+              "relations inside the typeset, every type on it contains the input, and no identity child of the last type that is in the typeset contains it. "
+              "(3) End to end for the pandas backend (theory/PandasDetect.v): engine generated from typeset.py + relation table generated from types/*.py + membership predicates "
+              "generated from backends/pandas/types/*.py, composed - for every abstract pandas series, every parent-closed list of shipped types in any order, any guards on the inference "
+              "relations; the table fact 'identity relations carry no explicit guard/transformer' is decided by computation on the regenerated table. "
+              "The conclusion is additionally exercised on the implementation for shipped typesets and random parent-closed sub-typesets on pandas / list / numpy inputs and frames, "
+              "also after interleaved inference calls."),
+        ref="DESIGN.md section 3 (C01)",
+        note=TB_COMMON + "Layer 3 is about abstract series (dtype-predicate answers + value kinds, measured tables - see C16); numpy and list backends have no model (oracle only). Objects with adversarial __eq__/__class__ are outside the model.",
+        technique="Coq proof: induction on reference walks, lifted to the generated detect by the bridge, composed with the constructor well-formedness theorem and the generated pandas membership predicates; Python-side soundness oracle for counter-example search",
     ),
     "C08": dict(
         text=("Coq proof about the GENERATED _traverse_graph_dataframe / VisionsTypeset.* / functional.*: for every frame with unique labels, type system and graph, "
@@ -122,12 +128,15 @@ CHECKS = {
     ),
     "C02": dict(
         text=("Coq proof for the reference walk: under exclusivity along the walk (exactly one outgoing relation accepts, guards do not touch the state) every permutation of the successor "
-              "enumeration - the model of set/graph insertion order - yields the same data, path and state; a two-successor counterexample shows the hypothesis is needed. Exclusivity of "
+              "enumeration - the model of set/graph insertion order - yields the same data, path and state; a two-successor counterexample shows the hypothesis is needed. For typesets built "
+              "by the GENERATED constructor the premise is a theorem (theory/GraphRefine.v on C14's well-formedness theorem): any two closed lists holding the same types, in any supply and "
+              "set-iteration orders, build typesets whose actual relation graphs and identity graphs have the same exclusive walks (successor lists equal up to order and extensional "
+              "equality of the stored relations). Exclusivity of "
               "the shipped relations is decided on the implementation: every successor's is_relation is evaluated at every node of every admissible branch for all shared streams plus "
               "cross-parser string columns, and CompleteSet is rebuilt under permuted supply orders. Five inherent overlaps at String are recorded as known findings with narrow classifiers."),
         ref="DESIGN.md section 6 (C02)",
         note=TB_COMMON + "Exclusivity of sibling predicates over ALL sequences is not a Coq theorem here (string parsers are oracles; the identity layer is modelled under C16); it is established by evaluation of the real guards. Known findings F02a-e, F02o.",
-        technique="Coq proof (order independence of exclusive walks under successor permutation) + exhaustive-per-node guard evaluation and permuted-order rebuilds on the implementation",
+        technique="Coq proof (order independence of exclusive walks under successor permutation, derived for the generated constructor's graphs) + exhaustive-per-node guard evaluation and permuted-order rebuilds on the implementation",
     ),
     "C16": dict(
         text=("Coq proofs, one per identity edge of the regenerated relation table (coverage of all edges is itself a computed theorem), over the pandas contains_ops and decorators "
